@@ -12,7 +12,7 @@ from ..gen import EXTRA, Kernel, Untranslatable, find_for, guard_condition, regi
 from ..pyexpr import ExprTr, emit_def, find_function, parse_file
 
 M = "direct/nn/mri_models.py"
-IMP = ("DirectVerif.Model.Recon",)
+IMP = ("DirectVerif.Model.Recon", "DirectVerif.Model.C14Loop")
 TRACKED = {"curr_volume", "slice_counter", "volume_size", "last_filename", "filename", "output_abs"}
 
 _binds = {"slice_counter": "sc", "output_abs.shape[0]": "n", "volume_size": "vs"}
@@ -333,3 +333,242 @@ def _c14_extra():
 
 
 EXTRA["C14"] = _c14_extra
+
+
+# ---- phase 3: what the loop reads, target / loss-list statements, state written, callers ---------------------
+def _parents(tree):
+    par = {}
+    for n in ast.walk(tree):
+        for c in ast.iter_child_nodes(n):
+            par[c] = n
+    return par
+
+
+def _reads_of(stmts, var="data") -> list[str]:
+    """how the dict `var` is used in `stmts`: keys subscripted / `.get`, calls receiving the whole dict"""
+    out = set()
+    mod = ast.Module(body=list(stmts), type_ignores=[])
+    par = _parents(mod)
+    for n in ast.walk(mod):
+        if not (isinstance(n, ast.Name) and n.id == var):
+            continue
+        if isinstance(n.ctx, ast.Del):
+            continue
+        p = par.get(n)
+        if isinstance(n.ctx, ast.Store):
+            if not isinstance(p, ast.Tuple):         # `for _, data in enumerate(...)` binds it
+                out.add(f"rebinds {var}: {ast.unparse(p)[:80]}")
+            continue
+        if isinstance(p, ast.Subscript) and p.value is n:
+            if isinstance(par.get(p), (ast.Assign, ast.AugAssign, ast.Delete)) and isinstance(p.ctx, (ast.Store, ast.Del)):
+                out.add(f"writes {var}[{ast.unparse(p.slice)}]")
+            else:
+                out.add(f"{var}[{ast.unparse(p.slice)}]")
+        elif isinstance(p, ast.Attribute) and p.value is n:
+            call = par.get(p)
+            if p.attr == "get" and isinstance(call, ast.Call) and call.args:
+                out.add(f"{var}.get({ast.unparse(call.args[0])})")
+            else:
+                out.add(f"{var}.{p.attr}")
+        elif isinstance(p, ast.Call):
+            out.add("call " + ast.unparse(p))
+        elif isinstance(p, ast.keyword) and isinstance(par.get(p), ast.Call):
+            out.add("call " + ast.unparse(par.get(p)))
+        else:
+            out.add(f"other use of {var}: {ast.unparse(p)[:80]}")
+    return sorted(out)
+
+
+def loop_reads(tree) -> list[str]:
+    fn = find_function(tree, "MRIModelEngine.reconstruct_volumes")
+    out = _reads_of(_loop(fn).body)
+    helper = find_function(tree, "_get_filename_from_batch")
+    arg = helper.args.args[0].arg
+    out += ["_get_filename_from_batch: " + r.replace(arg + "[", "data[", 1) if arg != "data" else "_get_filename_from_batch: " + r
+            for r in _reads_of(helper.body, arg)]
+    return out
+
+
+_TL = {"curr_target", "loss_dict_list"}
+
+
+def _touches(st, names) -> bool:
+    return any(isinstance(n, ast.Name) and n.id in names for n in ast.walk(st))
+
+
+def _simple(st) -> str:
+    if isinstance(st, ast.Assign):
+        t = st.targets[0]
+        if isinstance(t, ast.Subscript):
+            return f"write {ast.unparse(t)}={ast.unparse(st.value)}"
+        return f"{ast.unparse(t)}={ast.unparse(st.value)}"
+    return ast.unparse(st)[:160]
+
+
+def target_facts(tree) -> list[str]:
+    fn = find_function(tree, "MRIModelEngine.reconstruct_volumes")
+    loop = _loop(fn)
+    out = []
+    for st in fn.body:
+        if st is loop:
+            break
+        if isinstance(st, ast.Assign) and isinstance(st.targets[0], ast.Name) and st.targets[0].id in _TL:
+            out.append(f"init {_simple(st)}")
+        elif not isinstance(st, ast.Expr) and _touches(st, _TL):
+            out.append("init other: " + ast.unparse(st)[:100])
+    for st in loop.body:
+        test = ast.unparse(st.test) if isinstance(st, ast.If) else None
+        if test == "last_filename != filename":
+            out += [f"reset {_simple(s)}" for s in st.body if _touches(s, _TL)]
+        elif test == "add_target":
+            out += [f"if add_target: {_simple(s)}" for s in st.body]
+            out += [f"if not add_target: {_simple(s)}" for s in st.orelse]
+        elif isinstance(st, ast.Assign) and ast.unparse(st.targets[0]) == "output_abs":
+            out.append(_simple(st))
+        elif test == "curr_volume is None":
+            for s in st.body:
+                if isinstance(s, ast.If) and ast.unparse(s.test) == "add_target":
+                    out += [f"alloc if add_target: {_simple(x)}" for x in s.body]
+                elif _touches(s, _TL):
+                    out.append(f"alloc {_simple(s)}")
+        elif isinstance(st, ast.Assign) and isinstance(st.targets[0], ast.Subscript) \
+                and ast.unparse(st.targets[0].value) in ("curr_volume", "curr_target"):
+            out.append(_simple(st))
+        elif isinstance(st, ast.If) and any(isinstance(n, ast.Yield) for n in ast.walk(st)):
+            ys = [n for n in ast.walk(st) if isinstance(n, ast.Yield)]
+            out += ["yield " + ast.unparse(y.value) for y in ys]
+            out += ["in-yield " + _simple(s) for s in st.body if not isinstance(s, (ast.Expr, ast.Delete)) and _touches(s, _TL | {"curr_volume"})]
+        elif _touches(st, _TL) and not isinstance(st, ast.Expr):
+            out.append("other: " + ast.unparse(st)[:100])
+        elif isinstance(st, ast.Expr) and isinstance(st.value, ast.Call) and _touches(st, _TL):
+            out.append("other: " + ast.unparse(st)[:100])
+    return out
+
+
+STATE_FUNCS = (
+    (M, "MRIModelEngine.reconstruct_volumes"), (M, "MRIModelEngine.evaluate"), (M, "_process_output"),
+    (M, "_compute_resolution"), (M, "_get_filename_from_batch"), ("direct/engine.py", "Engine.predict"),
+    ("direct/engine.py", "Engine.build_loader"), ("direct/engine.py", "Engine.build_batch_sampler"),
+    ("direct/utils/writers.py", "write_output_to_h5"),
+)
+
+
+def _root(n):
+    while isinstance(n, (ast.Attribute, ast.Subscript)):
+        n = n.value
+    return n.id if isinstance(n, ast.Name) else None
+
+
+def state_writes_of(fn) -> list[str]:
+    """stores that outlive the call: attributes / items of `self`, of parameters' attributes are NOT counted (outputs are
+    returned); of names that are neither parameters nor locals (module globals, class attributes); global / nonlocal"""
+    params = {a.arg for a in fn.args.args + fn.args.kwonlyargs} | ({fn.args.vararg.arg} if fn.args.vararg else set()) \
+        | ({fn.args.kwarg.arg} if fn.args.kwarg else set())
+    local = set(params)
+    for n in ast.walk(fn):
+        if isinstance(n, ast.Name) and isinstance(n.ctx, ast.Store):
+            local.add(n.id)
+        elif isinstance(n, (ast.FunctionDef, ast.ClassDef)) and n is not fn:
+            local.add(n.name)
+    out = set()
+    for n in ast.walk(fn):
+        if isinstance(n, (ast.Global, ast.Nonlocal)):
+            out |= {f"global {x}" for x in n.names}
+        elif isinstance(n, (ast.Attribute, ast.Subscript)) and isinstance(n.ctx, (ast.Store, ast.Del)):
+            r = _root(n)
+            if r == "self" or (r is not None and r not in local):
+                out.add(ast.unparse(n) if isinstance(n, ast.Attribute) else ast.unparse(n.value) + "[…]")
+        elif isinstance(n, ast.Call) and isinstance(n.func, ast.Name) and n.func.id == "setattr" and n.args:
+            if _root(n.args[0]) == "self":
+                out.add("setattr(self)")
+    return sorted(out)
+
+
+def state_writes(_tree=None) -> list[tuple[str, list[str]]]:
+    from ..gen import REPO
+
+    out = []
+    for file, qual in STATE_FUNCS:
+        out.append((qual, state_writes_of(find_function(parse_file(REPO / file), qual))))
+    return out
+
+
+def caller_facts(_tree=None) -> list[str]:
+    from ..gen import REPO
+
+    out = []
+    ev = find_function(parse_file(REPO / M), "MRIModelEngine.evaluate")
+    for st in ast.walk(ev):
+        if isinstance(st, ast.For) and "reconstruct_volumes" in ast.unparse(st.iter):
+            out.append(f"evaluate: for {ast.unparse(st.target)} in {ast.unparse(st.iter)}")
+            for s in st.body:
+                if isinstance(s, ast.Assign) and ast.unparse(s.value) == "output":
+                    out.append(f"evaluate: {ast.unparse(s.targets[0])}=output")
+                elif isinstance(s, ast.Assign) and ast.unparse(s.targets[0]).startswith("val_volume_metrics["):
+                    out.append(f"evaluate: {ast.unparse(s.targets[0])}={ast.unparse(s.value)}")
+                elif isinstance(s, ast.Expr) and ast.unparse(s.value).startswith("val_losses."):
+                    out.append("evaluate: " + ast.unparse(s.value))
+    vl = find_function(parse_file(REPO / "direct/engine.py"), "Engine.validation_loop")
+    for st in ast.walk(vl):
+        if isinstance(st, ast.For) and "validation_datasets" in ast.unparse(st.iter):
+            out.append(f"validation_loop: for {ast.unparse(st.target)} in {ast.unparse(st.iter)}")
+            for s in st.body:
+                if isinstance(s, ast.Assign) and ast.unparse(s.targets[0]) in ("curr_batch_sampler", "curr_data_loader"):
+                    out.append(f"validation_loop: {ast.unparse(s.targets[0])}={ast.unparse(s.value)}")
+                elif isinstance(s, ast.Assign) and ast.unparse(s.value).startswith("self.evaluate("):
+                    out.append(f"validation_loop: {ast.unparse(s.targets[0])}={ast.unparse(s.value)}")
+    inf = parse_file(REPO / "direct/inference.py")
+    for qual in ("inference_on_environment", "setup_inference_save_to_h5"):
+        fn = find_function(inf, qual)
+        for st in ast.walk(fn):
+            if isinstance(st, ast.Assign) and (".predict(" in ast.unparse(st.value) or "inference_on_environment(" in ast.unparse(st.value)):
+                out.append(f"{qual}: {ast.unparse(st.targets[0])}={ast.unparse(st.value)}")
+            elif isinstance(st, ast.Expr) and ast.unparse(st.value).startswith("write_output_to_h5("):
+                out.append(f"{qual}: {ast.unparse(st.value)}")
+            elif isinstance(st, ast.Assign) and ast.unparse(st.targets[0]) == "(batch_size, crop)":
+                out.append(f"{qual}: (batch_size, crop)={ast.unparse(st.value)}")
+    # every call of reconstruct_volumes / write_output_to_h5 / predict in the package
+    sites = []
+    for p in sorted((REPO / "direct").rglob("*.py")):
+        try:
+            t = parse_file(p)
+        except Exception:  # noqa: BLE001
+            continue
+        for n in ast.walk(t):
+            if isinstance(n, ast.Call):
+                f = ast.unparse(n.func)
+                if f.endswith(".reconstruct_volumes") or f.endswith("write_output_to_h5") or f.endswith("engine.predict"):
+                    sites.append(f"site {p.relative_to(REPO)}: {f}")
+    return out + sorted(set(sites))
+
+
+def _pairs(xs):
+    return "[" + ",\n   ".join('("' + a + '", [' + ", ".join('"' + w.replace('"', '\\"') + '"' for w in ws) + "])" for a, ws in xs) + "]"
+
+
+_prev_extra = EXTRA["C14"]
+
+
+def _c14_extra3():
+    from ..gen import REPO
+
+    text, status = _prev_extra()
+    parts = [text]
+    for name, fnc, fb, kind in (
+        ("recon_loop_reads", lambda: loop_reads(parse_file(REPO / M)), "Recon.expectedLoopReads", "strs"),
+        ("recon_target_facts", lambda: target_facts(parse_file(REPO / M)), "Recon.expectedTargetFacts", "strs"),
+        ("recon_state_writes", state_writes, "Recon.expectedStateWrites", "pairs"),
+        ("recon_caller_facts", caller_facts, "Recon.expectedCallerFacts", "strs"),
+    ):
+        ty = "List String" if kind == "strs" else "List (String × List String)"
+        try:
+            v = fnc()
+            parts.append(f"/-- read from the source (phase 3) -/\ndef {name} : {ty} :=\n  {_strs(v) if kind == 'strs' else _pairs(v)}\n")
+            status[name] = "translated"
+        except (Untranslatable, SyntaxError, OSError, AttributeError, IndexError) as e:
+            parts.append(f"/-- SKIPPED ({type(e).__name__}: {e}) -/\ndef {name} : {ty} := {fb}\n")
+            status[name] = f"skipped: {e}"
+    return "\n".join(parts), status
+
+
+EXTRA["C14"] = _c14_extra3
